@@ -46,6 +46,15 @@ func opParEpochs(g *G) (interface{}, []uint64, int, interface{}) {
 		opts.MutateAddLinkProb = 0.3 + g.f64()*0.6
 	}
 	opts.EpochExecutorType = neat.EpochExecutorTypeParallel
+	if g.caseNo%8 == 3 {
+		opts.DropOffAge = 1 + g.intn(3)
+		if opts.PopSize < 12 {
+			opts.PopSize = 12 + g.intn(20)
+		}
+		if speciesClass == "one" {
+			opts.CompatThreshold = 0.5 + g.f64()*3
+		}
+	}
 	var start *genetics.Genome
 	origin := ""
 	if g.chance(0.7) {
@@ -67,10 +76,18 @@ func opParEpochs(g *G) (interface{}, []uint64, int, interface{}) {
 	if g.thorough {
 		k = 4 + g.intn(12)
 	}
+	// population-level stagnation long enough for delta coding under the parallel executor, with several species alive
+	// (seeded C02-K: a species whose quota delta coding set to zero delivers no babies)
+	stagnant := g.caseNo%8 == 3
 	procs := procChoices[g.intn(len(procChoices))]
 	prev := runtime.GOMAXPROCS(procs)
 	defer runtime.GOMAXPROCS(prev)
 	landscape := landscapes[g.intn(len(landscapes))]
+	if stagnant {
+		k = opts.DropOffAge + 7 + g.intn(3)
+		landscape = []string{"constant", "zero", "plateaus"}[g.intn(3)]
+		origin += "+stagnant"
+	}
 	ctx := neat.NewContext(context.Background(), opts)
 	ex := &genetics.ParallelPopulationEpochExecutor{}
 	pops := []*JPop{}
@@ -81,7 +98,7 @@ func opParEpochs(g *G) (interface{}, []uint64, int, interface{}) {
 	generation := 1
 	rand.Seed(g.seed63())
 	for e := 0; e < k; e++ {
-		if g.chance(0.15) {
+		if g.chance(0.15) && !stagnant {
 			landscape = landscapes[g.intn(len(landscapes))]
 		}
 		assignFitness(g, pop, landscape)
